@@ -84,6 +84,13 @@ def _f_str_to_float(ctx, x):
     return [arg], lambda: ctx.lst(str_to_float(arg))
 
 
+@reg("str_to_float_single", lambda V: _decl_text(V, [("a0", [43, 45]), ("a1", DIG), ("a3", DIG)]))
+def _f_str_to_float_single(ctx, x):
+    from bionumpy.io.strops import str_to_float
+    arg = _era(ctx, x, ["a0", "a1", "DOT", "a3"], [4])      # ONE text "-d.d" / "+d.d": no other row whose selection would copy the data
+    return [arg], lambda: ctx.lst(str_to_float(arg))
+
+
 @reg("ints_to_strings", lambda V: [V.int("n0", -120, 120), V.int("n1", 0, 12)])
 def _f_ints_to_strings(ctx, x):
     from bionumpy.io.strops import ints_to_strings
